@@ -194,7 +194,13 @@ def one(site, values):
     return vs.pop()
 
 
-def extract(src, errno_value):
+TEL_REPLIES = [("telBreak", "telnet_break_response"), ("telInterrupt", "telnet_interrupt_response"),
+               ("telAbort", "telnet_abort_response"), ("telDoTm", "telnet_do_tm_response"), ("telDoSga", "telnet_do_sga"),
+               ("telWillSga", "telnet_will_sga"), ("telWontSga", "telnet_wont_sga"), ("telTermQuery", "telnet_term_query"),
+               ("telSbLmMode", "telnet_sb_lm_mode"), ("telSbLmSlc", "telnet_sb_lm_slc"), ("telSe", "telnet_se")]
+
+
+def extract(src, errno_value, pkgver=("neolith", "0")):
     """src = text of src/comm.c; errno_value(name) -> int.  Returns Lean text for NV/Gen/C14.lean"""
     out = ["set_option linter.unusedVariables false"]
 
@@ -283,6 +289,35 @@ def extract(src, errno_value):
     out.append("/-- C (setup_accepted_connection, PORT_TELNET: add_message of %s, then flush_message) -/\n"
                "def connectTelnet : List (List Nat) := [%s]"
                % (", ".join(n for n, _ in msgs), ", ".join("[" + ", ".join(map(str, v)) + "]" for _, v in msgs)))
+    # --- replies written by copy_chars (telnet decoder) while input is processed
+    def byte_array(name):
+        d = re.search(r"static char %s\[\] = \{([^}]*)\};" % re.escape(name), src)
+        if not d:
+            raise X.TieBroken("guard:" + name, "cannot locate the initialiser of %s" % name)
+        toks = [re.sub(r"^INT_CHAR\((.*)\)$", r"\1", t.strip()) for t in d.group(1).split(",") if t.strip()]
+        if not toks or toks[-1] != "0":
+            raise X.TieBroken("guard:" + name, "%s is not a 0-terminated byte list" % name)
+        return [errno_value(t) & 0xFF for t in toks[:-1]]
+    cc = func_body(src, r"\nstatic size_t copy_chars \(UCHAR\* from, UCHAR\* to, size_t count, interactive_t\* ip\) \{", "copy_chars")
+    for lean, cname in TEL_REPLIES:
+        if not re.search(r"add_message \(ip->ob, %s\);" % cname, cc):
+            raise X.TieBroken("guard:copy_chars." + cname, "copy_chars no longer writes %s" % cname)
+        out.append("/-- C (`static char %s[]`, written by copy_chars) -/\ndef %s : List Nat := [%s]"
+                   % (cname, lean, ", ".join(map(str, byte_array(cname)))))
+    m = re.search(r'add_message \(ip->ob, "((?:\\.|[^"\\])*)"\);', cc)
+    if not m or m.group(1) != "\\r\\n":
+        raise X.TieBroken("guard:copy_chars.newline", "copy_chars: the CR LF echo is no longer add_message (ip->ob, \"\\r\\n\")")
+    out.append("/-- C (copy_chars, CR LF / CR NUL received: `add_message (ip->ob, \"\\r\\n\")`) -/\ndef telNewline : List Nat := [13, 10]")
+    m = re.search(r'add_vmessage \(ip->ob, "\\n\[%s-%s\] \\n", PACKAGE, VERSION\);', cc)
+    if not m:
+        raise X.TieBroken("guard:copy_chars.ayt", "copy_chars: the AYT answer is no longer add_vmessage (ip->ob, \"\\n[%s-%s] \\n\", PACKAGE, VERSION)")
+    out.append("/-- C (copy_chars, IAC AYT: `add_vmessage (ip->ob, \"\\n[%%s-%%s] \\n\", PACKAGE, VERSION)`) -/\n"
+               "def telAyt : List Nat := [%s]" % ", ".join(str(b) for b in ("\n[%s-%s] \n" % pkgver).encode()))
+    m = re.search(r"telnet_sb_lm_mode\[(\d+)\] = MODE_EDIT \| MODE_TRAPSIG;", cc)
+    if not m:
+        raise X.TieBroken("guard:copy_chars.lm-mode", "copy_chars: WILL LINEMODE no longer stores MODE_EDIT | MODE_TRAPSIG into telnet_sb_lm_mode")
+    out.append("/-- C (copy_chars, WILL LINEMODE: `telnet_sb_lm_mode[%s] = MODE_EDIT | MODE_TRAPSIG`) -/\ndef lmModeIndex : Nat := %s"
+               % (m.group(1), m.group(1)))
     out.append("/-- C (`if (*cp == '\\n')`) -/\ndef lfByte : Nat := 10")
     out.append("/-- C (`message_buf[producer] = '\\r'`) -/\ndef crByte : Nat := 13")
     return "\n\n".join(out)
